@@ -73,9 +73,40 @@ def session_oracle(case: dict):
         shutil.rmtree(tmp, ignore_errors=True)
 
 
+def ndarray_oracle(case: dict):
+    """numeric NumPy arrays as leaves (what a read with NumPy expressions leaves in a dict): written item by item, they read
+    back as the nested list of their items, whatever their size"""
+    import numpy as np
+
+    def mk(spec):
+        n = 1
+        for k in spec["shape"]:
+            n *= k
+        a = (np.arange(n) * spec["step"]).astype(spec["dtype"]).reshape(spec["shape"])
+        return a
+
+    arrs = {k: mk(v) for k, v in case["arrays"].items()}
+    d = {"n": 1, "mesh": {k: a for k, a in arrs.items()}, "rows": [list(arrs.values())[0], 2]}
+    exp = {"n": 1, "mesh": {k: a.tolist() for k, a in arrs.items()}, "rows": [list(arrs.values())[0].tolist(), 2]}
+    it = routes(d)
+    while True:
+        try:
+            name, got = next(it)
+        except StopIteration:
+            return None
+        except Exception as e:  # noqa: BLE001
+            return ("raises", f"round trip of a dict with arrays raised {type(e).__name__}: {e}")
+        got = native.strip_placeholders(got, kinds=("BLOCKCOMMENT",))
+        if not gen.typed_eq(got, native.normalise(exp)):
+            sizes = {k: (len(v) if isinstance(v, list) else None) for k, v in got.get("mesh", {}).items()}
+            return ("differs", f"route {name}: arrays {case['arrays']} read back with top-level lengths {sizes} (expected the full nested lists)")
+
+
 def oracle(case: dict):
     if case.get("kind") == "session":
         return session_oracle(case)
+    if case.get("kind") == "ndarray":
+        return ndarray_oracle(case)
     d = case["t"]
     exp = native.normalise(d)
     it = routes(d)
@@ -92,6 +123,8 @@ def oracle(case: dict):
 
 
 def shrink(case):
+    if case.get("kind") == "ndarray":
+        return
     if case.get("kind") == "session":
         for i in range(len(case["trees"])):
             if len(case["trees"]) > 1:
@@ -218,6 +251,16 @@ def run(ctx):
             t = {k: t}
         deep.append(t)
     run_cases(ctx, deep, "deep")
+    # NumPy arrays as leaves, also beyond NumPy's print threshold of 1000 elements
+    for i, spec in enumerate([{"a": {"shape": [5], "dtype": "int64", "step": 1}}, {"a": {"shape": [1000], "dtype": "int64", "step": 1}},
+                              {"a": {"shape": [1500], "dtype": "int64", "step": 1}}, {"f": {"shape": [40, 30], "dtype": "float64", "step": 0.5}},
+                              {"b": {"shape": [3, 3], "dtype": "float64", "step": 0.25}, "c": {"shape": [1024], "dtype": "float64", "step": 0.1}},
+                              {"u": {"shape": [2, 3, 4], "dtype": "int32", "step": 2}}]):
+        c = {"kind": "ndarray", "arrays": spec}
+        r = oracle(c)
+        if r:
+            ctx.oracle_fail(c, r[0], r[1])
+        ctx.count(("nd", i), True, "ndarray")
     # sessions: one parser object over several dicts that share quoted leaves (the same dict again, the same strings in
     # other places), string and file route, counter resets in between
     for i in range(ctx.n(40, 800)):
